@@ -1,4 +1,4 @@
-CLAIM = True
+CLAIM = False
 from props.common import conc
 
 
